@@ -88,9 +88,26 @@ def install(docs):
     d = os.path.join(seams.scratch_dir('c20'), 'data')
     shutil.rmtree(d, ignore_errors=True)
     os.makedirs(d)
+    # how the data got there is the installer's business: plain files, files linked in from where the data package
+    # keeps them (relative or absolute links), next to things that are no chip data at all
+    store = os.path.join(seams.scratch_dir('c20'), 'store')
+    shutil.rmtree(store, ignore_errors=True)
+    os.makedirs(store)
+    how = len(json.dumps(docs)) % 4
     for k, doc in enumerate(docs):
-        with open(os.path.join(d, 'chip_%d.json' % k), 'w') as f:
-            json.dump(doc, f)
+        name = ['chip_%d.json', 'Chip %d.JSON.json', 'p10_%d.json'][(how + k) % 3] % k
+        if (how + k) % 4 in (1, 2):
+            with open(os.path.join(store, 's%d.json' % k), 'w') as f:
+                json.dump(doc, f)
+            os.symlink(os.path.join('..', 'store', 's%d.json' % k) if (how + k) % 4 == 1 else os.path.join(store, 's%d.json' % k),
+                       os.path.join(d, name))
+        else:
+            with open(os.path.join(d, name), 'w') as f:
+                json.dump(doc, f)
+    if how % 2:
+        with open(os.path.join(d, 'README.txt'), 'w') as f:
+            f.write('not chip data\n')
+        os.makedirs(os.path.join(d, '__pycache__'), exist_ok=True)
     if not hasattr(hd, '_verif_orig_file'):
         hd._verif_orig_file = hd.__file__
     hd.__file__ = os.path.join(d, '__init__.py')
